@@ -11,6 +11,8 @@ MCKinds == {[x |-> c, d |-> p[1], t |-> p[2]] : c \in Comps2, p \in DT}
 MCInit == {<<r>> : r \in MCKinds}
 MCExt == {<<[x |-> <<2, 0>>, d |-> MinusOne, t |-> 300], [x |-> <<0, 2>>, d |-> 2, t |-> 300]>>,
           <<[x |-> <<1, 1>>, d |-> 2, t |-> 300], [x |-> <<1, 1>>, d |-> MinusOne, t |-> 300]>>}
+MCIns == {[x |-> <<1, 2>>, d |-> 2, t |-> 300], [x |-> <<0, 1>>, d |-> 0, t |-> 296]}
+MCIns3 == {[x |-> <<1, 0, 1>>, d |-> 2, t |-> 300], [x |-> <<0, 1, 0>>, d |-> 0, t |-> 296]}
 MCSteps == {MinusOne, 1}
 
 \* three descriptors, entries 0..1 (thorough)
@@ -26,8 +28,9 @@ K3 == [x |-> <<0, 2>>, d |-> 0, t |-> 296]
 K4 == [x |-> <<1, 1>>, d |-> 2, t |-> 300]
 K5 == [x |-> <<2, 2>>, d |-> MinusOne, t |-> 300]
 K6 == [x |-> <<0, 1>>, d |-> 2, t |-> 300]
-BehKinds == {K1, K2, K3, K4, K5}
-BehInit == {<<K1>>, <<K2>>, <<K4>>, <<K1, K2>>, <<K2, K5>>, <<K4, K5>>, <<K3, K6>>, <<K1, K2, K3>>}
+BehKinds == {K1, K2, K3, K5}
+BehInit == {<<K1>>, <<K4>>, <<K1, K2>>, <<K2, K5>>, <<K3, K6>>, <<K1, K2, K3>>}
+BehIns == {K4}
 BehExt == {<<K3, K4>>, <<K6, K6>>}
 
 
